@@ -265,6 +265,19 @@ func partKind(k ref.Kind) ref.Kind {
 // so that different histories reach identical states.
 func partMenu(k ref.Kind, l geom.Layout) []*ref.G {
 	var out []*ref.G
+	if l == geom.NoLayout {
+		// a geometry without a layout takes parts without coordinates only
+		switch k {
+		case ref.Polygon:
+			return []*ref.G{ref.NewLine(ref.LinearRing, l, 0, ref.Counter())}
+		case ref.MultiLineString:
+			return []*ref.G{ref.NewLine(ref.LineString, l, 0, ref.Counter())}
+		case ref.MultiPoint:
+			return []*ref.G{ref.NewPoint(l, false, ref.Counter())}
+		case ref.MultiPolygon:
+			return []*ref.G{ref.NewParts(ref.Polygon, l, []int{}, ref.Counter()), ref.NewParts(ref.Polygon, l, []int{0}, ref.Counter()), ref.NewParts(ref.Polygon, l, []int{0, 0}, ref.Counter())}
+		}
+	}
 	switch k {
 	case ref.Polygon:
 		for i, n := range []int{0, 1, 2, 3, 5} {
@@ -291,6 +304,8 @@ func partMenu(k ref.Kind, l geom.Layout) []*ref.G {
 
 func wrongLayouts(l geom.Layout) []geom.Layout {
 	switch l {
+	case geom.NoLayout:
+		return []geom.Layout{geom.XY, geom.XYZM}
 	case geom.XY:
 		return []geom.Layout{geom.XYZ}
 	case geom.XYZ:
@@ -336,7 +351,7 @@ func c02Alphabet(k ref.Kind, l geom.Layout) []c02Op {
 				return ""
 			}})
 		}
-		if k == ref.Polygon {
+		if k == ref.Polygon && l != geom.NoLayout {
 			// the polygon is lent: pushed into a MultiPolygon whose accessor hands out a polygon q
 			// for it; then one more ring is pushed on the polygon itself and a different one on q,
 			// in either order. The polygon is still the list of the rings pushed on IT.
@@ -398,7 +413,14 @@ func c02Alphabet(k ref.Kind, l geom.Layout) []c02Op {
 			}})
 		}
 		ops = append(ops, c02Op{"Reverse", func(s *c02State) string {
-			reverseT(s.g)
+			if s.g.Stride() == 0 {
+				// nothing to reverse - but the call has to come back
+				if d := reverseReturns(func() { reverseT(s.g) }); d != "" {
+					return d
+				}
+			} else {
+				reverseT(s.g)
+			}
 			for _, p := range s.m.parts {
 				reverseModelPart(p)
 			}
@@ -596,6 +618,19 @@ func c02Init(k ref.Kind, l geom.Layout, init int) *c02State {
 	return s
 }
 
+// c02Same compares a live geometry with a model: through the nested coordinates, or - for a
+// geometry without a layout, whose nested coordinates are not read (Coords() divides by the
+// stride; DESIGN.md section 7, item 1) - through type, layout, SRID and the flat accessors.
+func c02Same(t geom.T, want *ref.G) string {
+	if _, isGC := t.(*geom.GeometryCollection); !isGC && t.Layout() == geom.NoLayout && want.Layout == geom.NoLayout {
+		if a, b := structKey(t), structKey(want.MustBuild()); a != b {
+			return fmt.Sprintf("got %s want %s", a, b)
+		}
+		return ""
+	}
+	return observeEq(t, want, ref.EqualOpt{})
+}
+
 // c02Invariants evaluates every invariant of the property in the current state.
 func c02Invariants(s *c02State) string {
 	check := func(t geom.T, m *c02Model, who string) string {
@@ -615,7 +650,7 @@ func c02Invariants(s *c02State) string {
 			} else if pm.Kind == ref.Collection {
 				want = (&c02Model{kind: ref.Collection, parts: pm.Kids, fixed: pm.Fixed}).whole()
 			}
-			if d := observeEq(p, want, ref.EqualOpt{}); d != "" {
+			if d := c02Same(p, want); d != "" {
 				return fmt.Sprintf("%s part %d: %s", who, i, d)
 			}
 			if err := ref.WellFormed(p); err != nil {
@@ -630,7 +665,7 @@ func c02Invariants(s *c02State) string {
 				}
 			}
 		}
-		if d := observeEq(t, w, ref.EqualOpt{}); d != "" {
+		if d := c02Same(t, w); d != "" {
 			return who + " whole: " + d
 		}
 		return ""
@@ -767,6 +802,10 @@ func c02Run(c *engine.Ctx) {
 		for _, l := range layouts {
 			jobs = append(jobs, job{k, l, 0, depth}, job{k, l, 1, depth})
 		}
+	}
+	// geometries without a layout: parts without coordinates only (start state: empty)
+	for _, k := range []ref.Kind{ref.Polygon, ref.MultiPoint, ref.MultiLineString, ref.MultiPolygon} {
+		jobs = append(jobs, job{k, geom.NoLayout, 0, 4})
 	}
 	jobs = append(jobs, job{ref.Collection, geom.NoLayout, 0, depth})
 	var maxDepthDone int64 = int64(depth)
